@@ -253,6 +253,73 @@ func soloResult(cfg engineCfg, src string, env map[string]*V) string {
 	return res
 }
 
+// immutDoOp performs one operation of a sequence on the given engine / parsed templates / bindings.
+func immutDoOp(c immutCaseT, e *liquid.Engine, tpls []*liquid.Template, perrs []liquid.SourceError, op immutOp, b map[string]any) string {
+	res, _ := protect(func() string {
+		if op.api == 'P' {
+			if c.cfg.dir() != "" { // the one-call entry point cannot name the source path
+				tpl, err := c.cfg.parse(e, c.srcs[op.t])
+				if err != nil {
+					return opResult(c.cfg, nil, err, true)
+				}
+				out, err := tpl.Render(b)
+				return opResult(c.cfg, out, err, false)
+			}
+			out, err := e.ParseAndRender([]byte(c.srcs[op.t]), b)
+			if err != nil {
+				_, perr := e.ParseTemplate([]byte(c.srcs[op.t]))
+				return opResult(c.cfg, nil, err, perr != nil)
+			}
+			return opResult(c.cfg, out, nil, false)
+		}
+		tpl := tpls[op.t]
+		if tpl == nil {
+			if perrs[op.t] == nil {
+				return "panic" // the parse panicked
+			}
+			return opResult(c.cfg, nil, perrs[op.t], true)
+		}
+		switch op.api {
+		case 'S':
+			out, err := tpl.RenderString(b)
+			return opResult(c.cfg, []byte(out), err, false)
+		case 'F':
+			var buf bytes.Buffer
+			if err := tpl.FRender(&buf, b); err != nil {
+				return opResult(c.cfg, nil, err, false)
+			}
+			return opResult(c.cfg, buf.Bytes(), nil, false)
+		}
+		out, err := tpl.Render(b)
+		return opResult(c.cfg, out, err, false)
+	})
+	return res
+}
+
+// historyResult replays ops[0..k] from scratch (fresh engine, freshly parsed templates, fresh bindings)
+// and returns the result of op k.
+func historyResult(c immutCaseT, k int) string {
+	e := c.cfg.newEngine()
+	rz := &realiser{spare: 2}
+	goenvs := make([]map[string]any, len(c.envs))
+	for i, ev := range c.envs {
+		goenvs[i] = rz.env(ev)
+	}
+	tpls := make([]*liquid.Template, len(c.srcs))
+	perrs := make([]liquid.SourceError, len(c.srcs))
+	for i, s := range c.srcs {
+		func() {
+			defer func() { recover() }()
+			tpls[i], perrs[i] = c.cfg.parse(e, s)
+		}()
+	}
+	res := ""
+	for j := 0; j <= k && j < len(c.ops); j++ {
+		res = immutDoOp(c, e, tpls, perrs, c.ops[j], goenvs[c.ops[j].e])
+	}
+	return res
+}
+
 // immutRun executes the sequence and evaluates the oracle.
 func immutRun(r *Run, c immutCaseT, caseLine string) string {
 	e := c.cfg.newEngine()
@@ -278,44 +345,7 @@ func immutRun(r *Run, c immutCaseT, caseLine string) string {
 	for k, op := range c.ops {
 		b := goenvs[op.e]
 		before := snapshot(b)
-		res, _ := protect(func() string {
-			if op.api == 'P' {
-				if c.cfg.dir() != "" { // the one-call entry point cannot name the source path
-					tpl, err := c.cfg.parse(e, c.srcs[op.t])
-					if err != nil {
-						return opResult(c.cfg, nil, err, true)
-					}
-					out, err := tpl.Render(b)
-					return opResult(c.cfg, out, err, false)
-				}
-				out, err := e.ParseAndRender([]byte(c.srcs[op.t]), b)
-				if err != nil {
-					_, perr := e.ParseTemplate([]byte(c.srcs[op.t]))
-					return opResult(c.cfg, nil, err, perr != nil)
-				}
-				return opResult(c.cfg, out, nil, false)
-			}
-			tpl := tpls[op.t]
-			if tpl == nil {
-				if perrs[op.t] == nil {
-					return "panic" // the parse panicked
-				}
-				return opResult(c.cfg, nil, perrs[op.t], true)
-			}
-			switch op.api {
-			case 'S':
-				out, err := tpl.RenderString(b)
-				return opResult(c.cfg, []byte(out), err, false)
-			case 'F':
-				var buf bytes.Buffer
-				if err := tpl.FRender(&buf, b); err != nil {
-					return opResult(c.cfg, nil, err, false)
-				}
-				return opResult(c.cfg, buf.Bytes(), nil, false)
-			}
-			out, err := tpl.Render(b)
-			return opResult(c.cfg, out, err, false)
-		})
+		res := immutDoOp(c, e, tpls, perrs, op, b)
 		results = append(results, res)
 		if !strings.HasPrefix(res, "ok:") {
 			fails++
@@ -332,18 +362,11 @@ func immutRun(r *Run, c immutCaseT, caseLine string) string {
 		}
 		if res != solo[key] && !violated["history-dependent"] {
 			// A render whose result varies by itself (C02's matter, e.g. map order) is not a history
-			// effect: render the pair again, 8x in this history and 8x alone, and report only when
+			// effect: replay the history up to this op 8x from scratch and the pair 8x alone, and report only when
 			// each side is constant and the two constants differ.
 			inHist, alone := map[string]bool{res: true}, map[string]bool{solo[key]: true}
 			for i := 0; i < 8; i++ {
-				again, _ := protect(func() string {
-					if tpls[op.t] == nil {
-						return res
-					}
-					out, err := tpls[op.t].Render(b)
-					return opResult(c.cfg, out, err, false)
-				})
-				inHist[again] = true
+				inHist[historyResult(c, k)] = true
 				alone[soloResult(c.cfg, c.srcs[op.t], c.envs[op.e])] = true
 			}
 			if len(inHist) != 1 || len(alone) != 1 {
